@@ -251,6 +251,13 @@ def run_cases(exe, cases, jobs=None, env=None, per_case_timeout=20):
     with ThreadPoolExecutor(max_workers=len(chunks)) as ex:
         for r in ex.map(work, list(enumerate(chunks))):
             results.update(r)
+    # A case that ran into the driver's wall-clock watchdog is run once more on its own before it counts: on a loaded machine a
+    # process can be starved for longer than the watchdog allows, and a verdict must not depend on the load (a hang repeats).
+    slow = [(cid, lines) for cid, lines in cases if (results.get(cid) or {}).get("crash", None) and str(results[cid]["crash"]).startswith("timeout")]
+    if slow and len(cases) > 1 and len(slow) <= 20:
+        log("[drv] %d case(s) hit the watchdog; run again one by one" % len(slow))
+        for cid, lines in slow:
+            results.update(run_cases(exe, [(cid, lines)], jobs=1, env=env, per_case_timeout=per_case_timeout))
     log("[drv] %d cases in %.1fs" % (len(cases), time.time() - t0))
     return results
 
